@@ -778,6 +778,182 @@ fn drive_arte(sc: &E2Scenario, rep: &mut RunReport) {
     }
 }
 
+/// value exports of a declaration file or JS module: (exported const names, default -> const name,
+/// const name -> text of its initialiser when there is one)
+pub fn scan_exports(text: &str) -> (BTreeSet<String>, Option<String>, BTreeMap<String, String>) {
+    let mut exported = BTreeSet::new();
+    let mut default = None;
+    let mut init = BTreeMap::new();
+    for l in text.split('\n') {
+        let t = l.trim_start();
+        let (is_export, rest) = match t.strip_prefix("export ") {
+            Some(r) => (true, r),
+            None => (false, t),
+        };
+        let rest = rest.strip_prefix("declare ").unwrap_or(rest);
+        if let Some(r) = rest.strip_prefix("const ") {
+            let name: String = r.chars().take_while(|c| c.is_ascii_alphanumeric() || *c == '_' || *c == '$').collect();
+            if name.is_empty() {
+                continue;
+            }
+            if is_export {
+                exported.insert(name.clone());
+            }
+            // initialiser: after " = " up to the end of the statement on this line
+            if let Some(eq) = r.find(" = ") {
+                let body = r[eq + 3..].trim_end();
+                let body = body.strip_suffix(';').unwrap_or(body);
+                // `... = {json} as unknown as TypedDocumentNode<..>` in standalone mode
+                let body = match body.find(" as unknown as ") {
+                    Some(i) => &body[..i],
+                    None => body,
+                };
+                init.insert(name, body.to_string());
+            }
+        } else if is_export && rest.starts_with('{') {
+            // export { X as default };
+            let inner = rest.trim_start_matches('{').split('}').next().unwrap_or("");
+            for part in inner.split(',') {
+                let w: Vec<&str> = part.split_whitespace().collect();
+                if w.len() == 3 && w[1] == "as" && w[2] == "default" {
+                    default = Some(w[0].to_string());
+                } else if w.len() == 1 {
+                    exported.insert(w[0].to_string());
+                }
+            }
+        } else if is_export && rest.starts_with("default ") {
+            let n: String = rest[8..].chars().take_while(|c| c.is_ascii_alphanumeric() || *c == '_' || *c == '$').collect();
+            default = Some(n);
+        }
+    }
+    (exported, default, init)
+}
+
+fn doc_head(json_text: &str) -> Option<(String, Option<String>)> {
+    let v: Value = serde_json::from_str(json_text).ok()?;
+    let d = v.get("definitions")?.get(0)?;
+    let kind = d.get("kind")?.as_str()?.to_string();
+    let name = d.pointer("/name/value").and_then(|n| n.as_str()).map(String::from);
+    Some((kind, name))
+}
+
+/// C14: value exports of the CLI's declaration file vs the module the loader emits for the
+/// same file and config text, the loader being driven by all modules of the project at once
+/// under a seeded schedule.
+fn drive_c14(sc: &E2Scenario, rep: &mut RunReport) {
+    use crate::e1;
+    let mut rn = Runner::new(sc);
+    let (r, after) = rn.fresh(&["generate"], "json", sc.hash_seeds[0], Some(sc.readdir_seeds[0]), &[]);
+    rep.events += rn.runs;
+    if r.trapped() {
+        rep.violate(&["C18", "C08"], &format!("trap@{}", r.panic_site()), format!("exit {} {}", r.exit, tail(&r.stderr_str())));
+        return;
+    }
+    if r.exit != 0 {
+        rep.probe("generate_failed");
+        return;
+    }
+    let p = &sc.project;
+    let texts: BTreeMap<String, String> = sc.tree.iter().cloned().collect();
+    let files: Vec<e1::HostFile> = (0..p.ops.len())
+        .map(|i| e1::HostFile { path: p.op_abs(i), versions: vec![e1::FileVersion { text: texts[&p.op_abs(i)].clone(), imports: Some(p.ops[i].imports.iter().map(|x| x.spelling.clone()).collect()) }], exists: true })
+        .collect();
+    let mut rs = Rng::new(sc.faults.sample_seed);
+    let mut modules: Vec<usize> = (0..files.len()).collect();
+    rs.shuffle(&mut modules);
+    let plan = e1::L1Plan { modules: modules.clone(), sched_seed: rs.next_u64(), pct: rs.chance(1, 3), env: vec![], read_faults: vec![], config: Some(0) };
+    let e1sc = e1::E1Scenario {
+        variant: "c14".into(),
+        hash_seed: sc.hash_seeds[1 % sc.hash_seeds.len()],
+        alt_hash_seed: 0,
+        files,
+        configs: vec![p.config_text()],
+        ops: vec![],
+        l1: Some(plan.clone()),
+    };
+    let e1sc2 = e1sc.clone();
+    let (calls, sub) = crate::hashseed::on_fresh_instance(e1sc.hash_seed, move || {
+        let mut sub = RunReport::default();
+        let mut inst = e1::Instance::new();
+        let calls = e1::run_l1(&e1sc2, &plan, &mut inst, &mut sub);
+        (calls, sub)
+    });
+    rep.events += calls.len() as u64;
+    for v in sub.violations {
+        rep.violations.push(v);
+    }
+    let standalone = p.mode() == "standalone-ts-4.0";
+    for (slot, &fi) in modules.iter().enumerate() {
+        let decl = p.decl_abs(fi);
+        let Some(dts) = after.get(&decl).map(|b| String::from_utf8_lossy(b).into_owned()) else { continue };
+        let emit = calls.iter().find(|c| matches!(&c.op, e1::Op::Emit { t: e1::TaskRef::Slot(s) } if *s == slot));
+        let Some(emit) = emit else {
+            rep.violate(&["C14"], "C14.loader-never-emits", format!("{}: the loader host never reached emit", p.op_abs(fi)));
+            continue;
+        };
+        if emit.resp.ret != 1 {
+            rep.violate(
+                &["C14"],
+                "C14.loader-emit-fails",
+                format!("{}: the CLI generated {decl}, but the loader's emit_js fails: {:?}", p.op_abs(fi), emit.resp.result),
+            );
+            continue;
+        }
+        let js = emit.resp.result.clone().unwrap_or_default();
+        let (d_exp, d_def, d_init) = scan_exports(&dts);
+        let (j_exp, j_def, j_init) = scan_exports(&js);
+        rep.probe("module_compared");
+        let missing: Vec<&String> = d_exp.iter().filter(|n| !j_exp.contains(*n)).collect();
+        if !missing.is_empty() {
+            rep.violate(
+                &["C14"],
+                "C14.declared-export-missing-at-runtime",
+                format!("{decl} declares value exports {missing:?} that the loader's module for {} does not export (module exports {j_exp:?}, default {j_def:?})", p.op_abs(fi)),
+            );
+        }
+        match (&d_def, &j_def) {
+            (Some(d), Some(j)) => {
+                rep.probe("default_export_compared");
+                let dh = if standalone { d_init.get(d).and_then(|t| doc_head(t)) } else { None };
+                let jh = j_init.get(j).and_then(|t| doc_head(t));
+                if d != j && !(standalone && dh.is_some() && dh == jh) {
+                    rep.violate(&["C14"], "C14.default-export-differs", format!("{decl}: default is {d}, the loader's default is {j}"));
+                }
+                if standalone && dh != jh {
+                    rep.violate(&["C14"], "C14.default-export-differs", format!("{decl}: default designates {dh:?}, the loader's default designates {jh:?}"));
+                }
+            }
+            (Some(d), None) => rep.violate(&["C14"], "C14.default-export-missing-at-runtime", format!("{decl} declares default export {d}; the loader's module has no default export")),
+            _ => {}
+        }
+        if standalone {
+            for n in &d_exp {
+                if let (Some(a), Some(b)) = (d_init.get(n), j_init.get(n)) {
+                    let (va, vb) = (serde_json::from_str::<Value>(a), serde_json::from_str::<Value>(b));
+                    if let (Ok(va), Ok(vb)) = (va, vb) {
+                        rep.probe("standalone_document_compared");
+                        if va != vb {
+                            rep.violate(&["C14"], "C14.document-differs", format!("{decl}: the document of {n} differs from the loader's"));
+                        }
+                    }
+                }
+            }
+        } else {
+            // the constant must carry a document of this file: its first definition is an
+            // operation or fragment defined in (or imported into) the file
+            for n in &d_exp {
+                if let Some((kind, name)) = j_init.get(n).and_then(|t| doc_head(t)) {
+                    let own = p.ops[fi].defs.iter().any(|d| d.name().map(String::from) == name && (d.is_fragment() == (kind == "FragmentDefinition")));
+                    let imported = kind == "FragmentDefinition";
+                    if !own && !imported {
+                        rep.violate(&["C14"], "C14.document-differs", format!("{decl}: runtime export {n} carries {kind} {name:?}, which the file does not define"));
+                    }
+                }
+            }
+        }
+    }
+}
+
 /// C17: byte-identical outputs across hash seeds x directory orders, re-run, crash-then-rerun.
 fn drive_c17(sc: &E2Scenario, rep: &mut RunReport) {
     let mut rn = Runner::new(sc);
@@ -1294,6 +1470,7 @@ pub fn execute(sc: &E2Scenario) -> RunReport {
     match sc.variant.as_str() {
         "c18" => drive_c18(sc, &mut rep),
         "arte" => drive_arte(sc, &mut rep),
+        "c14" => drive_c14(sc, &mut rep),
         "c17" => drive_c17(sc, &mut rep),
         "c18f" => drive_c18f(sc, &mut rep),
         "c08" => drive_c08(sc, &mut rep),
